@@ -29,15 +29,18 @@ CHECKS.update({
              technique="Coq proof (induction over the planner loop and over fuel) + vm_compute correspondence + property oracle", design="6/C16"),
 })
 CHECKS.update({
- "C02": dict(text="Coq theorem (partial): for every history of evaluations interleaved with value assignments/overwrites, clear_at/clear/clear_all, formula changes, cached-flag changes "
-                  "and recalculation-option changes, the dependency-coverage invariant holds and every held value and every answer equals the uncached specification value under the "
-                  "CURRENT definitions and inputs (one proof case per edit kind; locality lemma with one case per kind of read). Reference changes are executed by the model and "
-                  "checked by correspondence + differential oracle only; structural edits belong to C03/C11-C13.",
-             note=EXEC_NOTE + "; theorems assume defs_ok (no call inside try: finding D20) and exclude OpSetRef; ghost flag s_reent=false (no formula re-entered itself, i.e. no DeepReferenceError cycle)",
-             technique="Coq proof (coverage invariant by simulation of executor against a reads-instrumented spec; locality lemma; closure of reach) + vm_compute correspondence + edits-only differential", design="6/C02"),
+ "C02": dict(text="Coq theorems: (1) for every history of evaluations interleaved with value assignments/overwrites, clear_at/clear/clear_all, formula changes, cached-flag changes, "
+                  "recalculation-option changes and reference changes (read by name or by attribute path), the dependency-coverage invariant holds and every held value and every answer equals "
+                  "the uncached specification value under the CURRENT definitions and inputs; (2) the differential form as worded: definitions and user-assigned values evolve by the edits "
+                  "alone (refinement to the abstract model Diff.adefs/ainp_step), so two histories with the same edits - in particular a history and its edits-only replay - answer every "
+                  "request alike. Structural edits (cells/spaces/bases, creating/deleting references) belong to C03/C11-C13 and reach this layer only through the correspondence. "
+                  "Finding D40 (fixed in /repo) was found while proving (2).",
+             note=EXEC_NOTE + "; theorems assume defs_ok (no call inside try: finding D20), refn_ok (by-name reads only of visible references); ghost flag s_reent=false (no formula re-entered itself, i.e. no DeepReferenceError cycle); depth-limit error excluded from the differential",
+             technique="Coq proof (coverage invariant by simulation of executor against a reads-instrumented spec; locality lemma; closure of reach; refinement of definitions+inputs to an abstract edit model) + vm_compute correspondence + edits-only differential", design="6/C02"),
  "C06": dict(text="Coq theorems: clearing/overwriting an element removes exactly the held elements reachable from it in the dependency graph (reach = reflexive-transitive closure, proved), "
                   "every read of a held element has an edge (coverage), other values and inputs untouched, clear() keeps inputs, assigned values are returned without running formulas, "
-                  "set_value keeps the invariant under both recalc settings. Partial: no-spurious-edge direction and reference changes rest on correspondence + oracle.",
+                  "set_value keeps the invariant under both recalc settings; after ANY operation (incl. reference changes, failed evaluations, recalculation) the user-assigned values are "
+                  "exactly those the operation itself sets/removes (Diff.ainp_step). Partial: the no-spurious-edge direction rests on correspondence + oracle.",
              note=EXEC_NOTE + "; defs_ok and s_reent=false hypotheses", technique="Coq proof (graph closure lemma + coverage invariant) + vm_compute correspondence + graph-descendant oracle", design="6/C06"),
  "C08": dict(text="Coq theorem (partial): in every reachable quiescent state graph item nodes = held elements, edges join graph nodes, inputs have no predecessors, every element read "
                   "(cached callee, uncached cells passed through, reference read by attribute) is recorded as predecessor, uncached cells hold nothing. Converse inclusion and acyclicity "
